@@ -43,6 +43,13 @@ fn gen_target(r: &mut Rng, prelude: &[PreCred], actor: &Actor) -> OpKind {
             let mut s = gen_reg(r, rp);
             let supported = r.chance(9, 10);
             s.algs = gen_algs(r, Some(supported));
+            // now and then the account already has a credential at this RP (same user handle)
+            if let Some(h) = prelude.iter().filter(|p| p.rp_id == eff).filter_map(|p| p.user_handle.clone()).next() {
+                if r.chance(1, 3) {
+                    s.user_id = h;
+                    s.sel = Some(Sel { rk: Some(2), require_rk: true, uv: s.sel.as_ref().map(|x| x.uv).unwrap_or(1) });
+                }
+            }
             if with_prf {
                 s.prf = Some(PrfIn { eval: r.bool().then(|| gen_prf_vals(r)), by_cred: None });
             }
@@ -57,6 +64,12 @@ fn gen_target(r: &mut Rng, prelude: &[PreCred], actor: &Actor) -> OpKind {
         }
         60..=71 => {
             let mut s = gen_mc(r, &eff);
+            if let Some(h) = prelude.iter().filter(|p| p.rp_id == eff).filter_map(|p| p.user_handle.clone()).next() {
+                if r.chance(1, 3) {
+                    s.user_id = h;
+                    s.rk = true;
+                }
+            }
             if with_prf {
                 s.prf = Some(CtapPrf { eval: r.bool().then(|| (r.bytes(32), None)), by_cred: None });
             }
@@ -288,10 +301,13 @@ impl Family for C07Family {
         // the same single faults while a second actor works on the shared store
         // (not on the single-slot store: there another actor's registration evicts the record, and the
         // clauses below would be judging the slot's replace-on-save design, not the ceremony)
-        if matches!(c.wrap, Wrap::ArcMutex | Wrap::ArcRwLock) && c.backend != Backend::Slot {
+        // On the shared one-slot store only the success clauses are judged (batch `concurrent-slot`): a record
+        // evicted while a ceremony waits for the user is re-created by that ceremony's counter write.
+        if matches!(c.wrap, Wrap::ArcMutex | Wrap::ArcRwLock) {
+            let slot = c.backend == Backend::Slot;
             for _ in 0..4 {
                 let mut s = base.clone();
-                s.batch = "concurrent".into();
+                s.batch = if slot { "concurrent-slot" } else { "concurrent" }.into();
                 let cc = ceremony_mut(&mut s);
                 let mut other = gen_actor(&mut r);
                 other.hmac = HmacCfg::None;
@@ -447,6 +463,9 @@ impl Family for C07Family {
                     }
                 }
             }
+        }
+        if scn.batch == "concurrent-slot" {
+            j.out.retain(|v| ["C07/auth-ok-counter-not-stored", "C07/store-error-swallowed", "C07/reg-ok-not-saved"].contains(&v.clause.as_str()));
         }
         // measurements
         let t_idx = c.cell.map(|x| x as usize).unwrap_or(c.actors[0].ops.len() - 1);
